@@ -9,6 +9,7 @@ import (
 	"os/exec"
 	"path/filepath"
 	"runtime"
+	"runtime/debug"
 	"runtime/pprof"
 	"sort"
 	"strconv"
@@ -253,7 +254,35 @@ func driverMain(id, tier string) int {
 		return 2
 	}
 	seed, _ := strconv.Atoi(os.Getenv("VERIF_SEED"))
-	shards := p.Shards(tier)
+	var shards []Shard
+	setupPanic := ""
+	func() {
+		defer func() {
+			if r := recover(); r != nil {
+				setupPanic = fmt.Sprintf("%v\n%s", r, trimStack(string(debug.Stack())))
+			}
+		}()
+		shards = p.Shards(tier)
+	}()
+	if setupPanic != "" {
+		// the scenarios of this property could not even be built: a constructor of
+		// the library refused (or crashed on) a configuration inside the property's
+		// domain (every scenario is built from documented-valid parameters only)
+		os.MkdirAll(filepath.Join(outDir(), "replays"), 0o755)
+		path := filepath.Join(outDir(), "replays", fmt.Sprintf("%s-setup.json", id))
+		rep := map[string]any{"property": id, "clause": id + ".valid-configuration-refused", "check": id, "tier": tier, "scenario": "(building the scenarios)",
+			"history": []string{}, "detail": setupPanic}
+		b, _ := json.MarshalIndent(rep, "", " ")
+		os.WriteFile(path, append(b, '\n'), 0o644)
+		fmt.Printf("VIOLATION property=%s replay=%s\n  clause=%s.valid-configuration-refused\n  the library refused or crashed on a valid configuration while the scenarios of this check were being built:\n  %s\n", id, path, id, strings.ReplaceAll(setupPanic, "\n", "\n  "))
+		ev := evidence{PropertyID: id, Tier: tier, Seed: seed, Level: p.Level, Assumptions: p.Assumptions, WallS: round3(time.Since(start).Seconds()), Violations: 1,
+			Coverage: map[string]any{"evaluations": 0, "distinct_nontrivial": 0, "states": 0, "transitions": 0, "traces_validated_against_impl": 0, "rule": p.Rule,
+				"samples": []any{"no scenario could be built: " + setupPanic}, "exhaustive": false}}
+		os.MkdirAll(filepath.Join(outDir(), "evidence"), 0o755)
+		eb, _ := json.MarshalIndent(ev, "", " ")
+		os.WriteFile(filepath.Join(outDir(), "evidence", id+".json"), append(eb, '\n'), 0o644)
+		return 1
+	}
 	budget := p.ShardBudget(tier)
 	order := make([]int, len(shards))
 	for i := range order {
@@ -632,6 +661,17 @@ func ReplayFile(path string) (property string, fails []Fail, err error) {
 	p := Registry[id]
 	if p == nil {
 		return rep.Property, nil, fmt.Errorf("unknown property %s", id)
+	}
+	if rep.Scenario == "(building the scenarios)" {
+		func() {
+			defer func() {
+				if r := recover(); r != nil {
+					fails = append(fails, Fail{Clause: id + ".valid-configuration-refused", Detail: fmt.Sprintf("%v\n%s", r, trimStack(string(debug.Stack())))})
+				}
+			}()
+			p.Shards(rep.Tier)
+		}()
+		return rep.Property, fails, nil
 	}
 	for _, tier := range []string{rep.Tier, "quick", "thorough"} {
 		if tier == "" {
